@@ -42,7 +42,7 @@ checks = {
  "C20": dict(level="exploration", design="§4 C20",
    technique=TECH + "histories continuing past graceful and abnormal session ends with a restart before every request on all backends, refinement against refvm's end/blocked behaviour",
    text="Seeded search over programs with both kinds of end node and TERMINATE-setting external code; after a graceful end the stored session must have an empty symbol cache and the same client flags and the next request must run the entry node afresh; after an abnormal end every later request must report stop, output nothing and run nothing until the harness clears the flag. Sampling.",
-   note="Trusted: refvm; nothing is asserted after the harness cleared TERMINATE.  One run in 4 keeps the session's persister between requests; after client code has cleared TERMINATE in the stored session (own handle and persister) the next request must be served again. One request in 10 has the store fail the read of the session record: the session must not be lost over it (the model is not advanced; a blocked session is still blocked afterwards). Template-lookup and client-write faults are injected on arbitrary requests including the one that ends the session: the page is then not compared, the restart/blocking behaviour is."),
+   note="Trusted: refvm; nothing is asserted after the harness cleared TERMINATE.  One run in 4 keeps the session's persister between requests; after client code has cleared TERMINATE in the stored session (own handle and persister) the next request must be served again. One request in 10 has the store fail the read of the session record: the session must not be lost over it (the model is not advanced; a blocked session is still blocked afterwards); on the Postgres store the fault is one failing driver call of the request at a drawn offset instead. Template-lookup and client-write faults are injected on arbitrary requests including the one that ends the session: the page is then not compared, the restart/blocking behaviour is."),
  "C09": dict(level="exploration", design="§4 C09",
    technique=TECH + "seeded cache operation histories with snapshot/restore (restart) injected between operations, refinement against a reference cache, failure-atomicity check",
    text="Seeded operation histories over the cache API (values across the 16-bit boundary, limits, capacities) checked operation by operation against a small reference cache: limit and capacity enforcement, exact byte accounting, one scope per symbol, release on Pop/Reset, and unchanged exported state after every rejected operation; a sub-batch serialises and restores the cache between operations. The cache is sequential: the family contributes histories, restart as a fault and the model, not schedules. Sampling.",
